@@ -10,6 +10,7 @@ pub mod c08;
 pub mod paging;
 pub mod c11;
 pub mod c12;
+pub mod c13;
 pub mod c14;
 pub mod c15;
 pub mod c16;
@@ -31,6 +32,7 @@ pub fn run(a: &Args, rep: &mut Report) -> bool {
         "c10" => paging::run(a, rep, "c10"),
         "c11" => c11::run(a, rep),
         "c12" => c12::run(a, rep),
+        "c13" => c13::run(a, rep),
         "c14" => c14::run(a, rep),
         "c15" => c15::run(a, rep),
         "c16" => c16::run(a, rep),
